@@ -16,7 +16,9 @@ SPEC = dict(
              "pending, no older state is ever shown after a newer one. REFUTED for arbitrary order (witness theorems, both "
              "recorded as known findings): (b) deterministically by Cancel 10 ms after a reported pairing request (application "
              "sees None, ReceivedPairingRequest, None), (a) by two delayed notifications of near-simultaneous reports delivered in "
-             "inverted order (application ends on Trusted while the hub answers InProgress). Tie on every run: a real hub.Hub per "
+             "inverted order (application ends on Trusted while the hub answers InProgress); and, independent of order, (a) needs its "
+             "settledness hypothesis: CancelPairingWithSKI on a completed connection is ignored by the connection, the application "
+             "is told None and the hub keeps answering Completed (third known finding). Tie on every run: a real hub.Hub per "
              "scenario (scripted fake connection that reports from inside Abort/Approve/Close like a real one), realistic "
              "handshake report sequences and random ones interleaved with user operations and pauses; the linearised history "
              "(which pending object each delayed notification carried, what every notification showed when received, whether each "
@@ -27,7 +29,9 @@ SPEC = dict(
              "notifications (from the user operations, ServeHTTP and the connection's traced state changes) in some order, and "
              "'last = PairingDetailForSki' is evaluated at the stable points (waiting for the user, finished).",
         note="(a) and (b) hold only under in-order delivery; on the pinned tree both fail (known findings "
-             "delayed_notifications_inverted, sync_notification_overtakes_delayed). Trusted: Coq kernel + vm_compute; the Go-AST "
+             "delayed_notifications_inverted, sync_notification_overtakes_delayed); (a) additionally assumes that the registered "
+             "connection has reported after the last user operation, which CancelPairingWithSKI on a non-pending connection "
+             "breaks for good (known finding cancel_ignored_by_connection_answer_differs). Trusted: Coq kernel + vm_compute; the Go-AST "
              "translator for the state table; the hubunit driver (fake connection/application, goroutine-id test that tells "
              "synchronous from delayed callbacks); error values are modelled as unwrapped distinct objects (errors.Is = identity); "
              "the hypothesis 'an error value is reported with SmeStateError only' is read from ship/handshake.go, its necessity is "
@@ -42,17 +46,17 @@ SPEC = dict(
     drivers=[dict(bin="hubunit", args=["-prop", "C18"], n_quick=1500, n_thorough=30000, timeout=1200),
              dict(bin="hubunit", args=["-prop", "C18sys"], n_quick=18, n_thorough=180, timeout=1200)],
     codes={10: "sync_notification_overtakes_delayed", 11: "delayed_notifications_inverted",
-           12: "last_notification_not_current", 13: "older_state_after_newer_unexplained",
+           12: "last_notification_not_current", 14: "cancel_ignored_by_connection_answer_differs", 13: "older_state_after_newer_unexplained",
            15: "terminal_state_mapped_wrongly"},
     rule="one case = the complete linearised history of one SKI on its own real hub.Hub: 2 deterministic replays of the "
-         "cancel-after-pending-request witness and 2 full client handshake bursts, then 55% realistic runs (client/server; "
+         "cancel-after-pending-request witness, 2 full client handshake bursts and the cancel-after-completion witness, then 55% realistic runs (client/server; "
          "success, remote denial, error with the double error report, pending then approved / cancelled / left waiting, "
          "unregister after completion; a quarter of them paced = quiescence after every step) and 45% random histories (3-16 "
          "steps over all 40 states, error values incl. ErrConnectionNotFound and ill-formed ones, repeated reports, "
          "register/close of the connection, Register/Unregister/Cancel with or without the connection reacting, queries, "
          "pauses of 0/1-5/100-400/480-540 ms); every history ends with quiescence (poll, cap 8 s) and a query. distinct = hash of "
          "the script; non-trivial = at least one report replaced the stored detail and at least two notifications were received. "
-         "Second driver: 18 pairs of real hubs (outcomes success x2, denied, error, pending_approved, pending_cancelled in turn), "
+         "Second driver: 18 pairs of real hubs (outcomes success, denied, error, pending_approved, pending_cancelled, success_then_cancel in turn), "
          "one case per hub and stable point (non-trivial = at least two notifications).",
     trusted=["hub fakes: scripted connection (sets ShipHandshakeState, calls HandleShipHandshakeStateUpdate, reacts inside "
              "Abort/Approve/Close), application = the recorder, fake mDNS",
